@@ -1,0 +1,12 @@
+//go:build verif
+
+package prompting
+
+// This file exists only in builds made with the "verif" build tag. It exports
+// response mode determination (otherwise only reachable from code that reads
+// from a terminal) so that external runtime monitors can drive it directly.
+
+// VerifDetermineResponseMode exposes response mode determination.
+func VerifDetermineResponseMode(prompt string) ResponseMode {
+	return determineResponseMode(prompt)
+}
